@@ -23,6 +23,8 @@ def main():
     if a.replay:
         from . import replay
         sys.exit(replay.run(a.replay))
+    if a.only:
+        os.environ["VERIF_ONLY"] = a.only        # a filtered (development) run must not overwrite the evidence of a full run
     seed = int(os.environ.get("VERIF_SEED", "0"))
     mod = importlib.import_module("harness.%s" % a.prop.lower())
     t0 = time.time()
